@@ -535,13 +535,21 @@ def run(ctx):
                 reported[key] = [rule, (lab, src, nm, f["name"], source_excerpt(f) if nm else None), detail, 1]
 
     # --- report each distinct problem signature once, on a minimised program
-    for sig, (rule, (lab, src, nm, fname, excerpt), detail, count) in sorted(reported.items()):
+    n_min = n_rep = 0
+    for sig, (rule, (lab, src, nm, fname, excerpt), detail, count) in sorted(reported.items(), key=lambda kv: (len(kv[1][1][1]), kv[0])):
+        if n_rep >= 12:
+            ctx.stat("problems-not-reported(over the cap of 12 signatures)")
+            continue
         msrc = src
         inp = {"program": src, "sig": sig, **({"name": nm, "context": excerpt} if nm else {})}
         det = "%s; function %s of %s; %d function(s) with this signature in this run" % (detail, fname, lab, count)
         pre = {"kind": "bytecode-" + rule, "input": inp, "detail": det}
-        if (ctx.match_finding(pre) is None and nm is None and not ctx.replay and not vlib.os.environ.get("C29_NOMIN")
+        known = ctx.match_finding(pre) is not None
+        if not known:
+            n_rep += 1
+        if (not known and n_min < 3 and nm is None and not ctx.replay and not vlib.os.environ.get("C29_NOMIN")
                 and rule in ("verifier", "disassemble", "join-depth")):
+            n_min += 1
             # unknown problem: shrink the program first (known ones are recognised on the program as generated)
             msrc = minimise_program(tbl, src, sig)
             inp = {"program": msrc, "sig": sig}
